@@ -446,9 +446,12 @@ package grpcgcp
 //@ dyn field:monitoredConn.cancel ()
 //@   modifies $cancelCalls
 //@   ensures $cancelCalls == upd(old($cancelCalls), $fn, old($cancelCalls)[$fn] + 1)
+// the dial function returns, on success, a connection it has not returned before ($dialed records them)
+//@ ghost $dialed map[*grpc.ClientConn]bool
 //@ dyn field:GCPMultiEndpoint.dialFunc (ctx, target, dopts) (conn, err)
-//@   modifies nothing
-//@   ensures err == nil ==> conn != nil
+//@   modifies $dialed
+//@   ensures err == nil ==> conn != nil && !old($dialed)[conn] && $dialed == upd(old($dialed), conn, true)
+//@   ensures err != nil ==> $dialed == old($dialed)
 
 // GMEInv: lock invariant of GCPMultiEndpoint.mu
 //@ inv GCPMultiEndpoint.mu G0 [C16] := this.mes != nil && this.pools != nil
@@ -496,6 +499,8 @@ package grpcgcp
 //@   ensures [C16.reject-empty] (exists name, meo in meOpts.MultiEndpoints :: meo == nil || len(meo.Endpoints) == 0) ==> result != nil
 //@   ensures [C16.atomic] result != nil ==> gmeSame(gme) && poolsSame(gme)
 //@   ensures [C15.applied] result == nil ==> gme.defaultName == meOpts.Default && (forall n string :: {n in gme.mes} (n in gme.mes) == (n in meOpts.MultiEndpoints))
+// a rejected update closes every connection it dialled
+//@   ensures [C16.failed-update-closes-dialed] result != nil ==> forall c *grpc.ClientConn :: {$dialed[c]} $dialed[c] && !old($dialed)[c] ==> $connCloses[c] >= old($connCloses)[c] + 1
 //@   ensures [C16.configured] result == nil ==> len(gme.mes) > 0 && gme.defaultName in gme.mes
 //@   ensures [C15.pools-exact] result == nil ==> forall e string :: {e in gme.pools} (e in gme.pools) == (e in validPools)
 //@   ensures [C15.pools-kept] result == nil ==> forall e string :: {e in gme.pools} old(e in gme.pools) && e in validPools ==> gme.pools[e] == old(gme.pools[e])
@@ -511,7 +516,11 @@ package grpcgcp
 //@   loop 4 invariant forall e string :: {e in gme.pools} e in gme.pools && !old(e in gme.pools) ==> e in validPools && (exists j, x in created :: x == e)
 //@   loop 4 invariant forall j, x in created :: x in gme.pools && !old(x in gme.pools)
 //@   loop 4 invariant forall j1, x1 in created :: forall j2, x2 in created :: j1 != j2 ==> x1 != x2
+//@   loop 4 invariant forall c *grpc.ClientConn :: {$dialed[c]} $dialed[c] && !old($dialed)[c] ==> (exists j, x in created :: gme.pools[x].conn == c)
+//@   loop 4 invariant forall c *grpc.ClientConn :: {$connCloses[c]} $connCloses[c] == old($connCloses)[c]
 //@   loop 5 invariant lockinv(gme.mu, "G0", "G2", "G3") && gmeSame(gme) && poolsGrown(gme)
+//@   loop 5 invariant forall c *grpc.ClientConn :: {$connCloses[c]} $connCloses[c] >= old($connCloses)[c]
+//@   loop 5 invariant forall c *grpc.ClientConn :: {$dialed[c]} $dialed[c] && !old($dialed)[c] ==> $connCloses[c] >= old($connCloses)[c] + 1 || (exists j, x in created :: j > $i && x in gme.pools && gme.pools[x].conn == c)
 //@   loop 5 invariant forall e string :: {e in gme.pools} e in gme.pools && !old(e in gme.pools) ==> (exists j, x in created :: j > $i && x == e)
 //@   loop 5 invariant forall j, x in created :: j > $i ==> x in gme.pools && !old(x in gme.pools)
 //@   loop 5 invariant forall j1, x1 in created :: forall j2, x2 in created :: j1 != j2 ==> x1 != x2
